@@ -15,3 +15,14 @@ package crypto
 //@   pure
 //@   ensures err == nil <==> id == 12 || id == 15 || id == 16 || id == 19 || id == 20 || id == -138
 //@   ensures err == nil ==> cksum_etype_ok(id, tagof(et))
+
+//@ func crypto.DecryptMessage(ciphertext, key, usage) (b, err)
+//@   pure
+//@   trusted_frame delegates to the etype
+//@   ensures err == nil <==> krb_dec_ok(key.KeyType, bytes(key.KeyValue), usage, bytes(ciphertext))
+//@   ensures err == nil ==> bytes(b) == krb_dec_pt(key.KeyType, bytes(key.KeyValue), usage, bytes(ciphertext))
+//@ func crypto.DecryptEncPart(ed, key, usage) (b, err)
+//@   pure
+//@   trusted_frame delegates to the etype
+//@   ensures err == nil <==> krb_dec_ok(key.KeyType, bytes(key.KeyValue), usage, bytes(ed.Cipher))
+//@   ensures err == nil ==> bytes(b) == krb_dec_pt(key.KeyType, bytes(key.KeyValue), usage, bytes(ed.Cipher))
